@@ -1,15 +1,24 @@
 #!/bin/bash
-# MANIFEST.setup_cmd: build the whole Coq development from files on disk (offline), byte-check the harness.
+# MANIFEST.setup_cmd: regenerate the tables from /repo, build the whole Coq development from files on disk (offline),
+# byte-check the harness.  Fails if any registered property's theorem file (or anything it needs) does not build.
 set -e
 cd "$(dirname "$0")"
 export PYTHONDONTWRITEBYTECODE=1
+LOG=$PWD/coq/.setup-build.log
 if [ -f harness/gen_tables.py ]; then
   PYTHONPATH="${VERIF_REPO:-/repo}:$PWD/harness" PYTHONHASHSEED=0 /venv/bin/python -W ignore harness/gen_tables.py
 fi
 PYTHONPATH="$PWD/harness" /venv/bin/python -W ignore -c "from vlib.core import ensure_makefile; ensure_makefile()"
 cd coq
-timeout 3000 make -f Makefile.coq -j16 > /tmp/verif-setup-build.log 2>&1 || { tail -50 /tmp/verif-setup-build.log; exit 1; }
+timeout 3000 make -f Makefile.coq -j16 -k > "$LOG" 2>&1 || true
 cd ..
+missing=""
+for p in $(/venv/bin/python -c "import json; print(' '.join(c['property_id'] for c in json.load(open('MANIFEST.json'))['checks']))"); do
+  [ -f "coq/Props/$p.vo" ] || missing="$missing $p"
+done
+if [ -n "$missing" ]; then
+  echo "setup: theorem files of registered properties did not build:$missing"; grep -B2 -A12 "Error" "$LOG" | head -80; exit 1
+fi
 /venv/bin/python -W ignore -c "import compileall,sys; sys.exit(0 if compileall.compile_dir('harness', quiet=1, legacy=False, optimize=0) else 1)" || true
 find harness -name __pycache__ -type d -exec rm -rf {} + 2>/dev/null || true
 echo setup ok
